@@ -30,6 +30,9 @@ REASONS = {
     'send_fault': ['transport close', 'transport error'],
     # the gateway cancels the task of the pending long-poll (the client hung up): a failure of the transport
     'poll_cancel': ['transport close', 'transport error'],
+    # the gateway cancels the task of the POST that carried the CLOSE packet (the client hung up without waiting for the answer),
+    # possibly while the application's disconnect handler is suspended: the session still ends, once, and is cleaned up
+    'post_cancel': [],
 }
 TIMED = ['ping timeout', 'transport close', 'transport error']
 POLLING_CAUSES = ['post_close', 'api_disc', 'api_disc_all', 'post_bad', 'post_oversize', 'send_late', 'silence']
@@ -55,6 +58,7 @@ class Beh(base.Behaviour):
         return []
 
     def disconnect(self, sid, reason):
+        self.__dict__.setdefault('entered', set()).add(sid)
         if self.dh == 'raise_type_once':
             # an application bug (TypeError) inside the handler, for the first session that ends only
             if not getattr(self, '_raised', False):
@@ -152,7 +156,9 @@ class Events(core.Scenario):
                 sc.inj.append((name, sc.world.nstep, sc.world.now))
                 ww = sc.world
                 if name == 'post_close':
-                    peer.post(ww, A, '1', run=False)
+                    sc.postA = peer.post(ww, A, '1', run=False)
+                elif name == 'post_cancel':
+                    ww.cancel(sc.postA)
                 elif name == 'frame_close':
                     ww.ws_send(sc.ws, '1')
                 elif name == 'api_disc':
@@ -184,7 +190,12 @@ class Events(core.Scenario):
                 nb = INTERVAL + TIMEOUT + 0.5
             if name == 'silence':
                 nb = INTERVAL + 3 * TIMEOUT + INTERVAL + TIMEOUT + 0.5
-            return core.Action(name, fire, None, nb)
+            en = None
+            if name == 'post_cancel':
+                # (only once the CLOSE packet of the POST has been acted on: a request cancelled before that never arrived)
+                en = lambda sc: getattr(sc, 'postA', None) is not None and not sc.postA.done and \
+                    A in getattr(sc.world.beh, 'entered', ())
+            return core.Action(name, fire, en, nb)
         if p.get('together'):
             # both causes are delivered in the same instant by one environment action (two requests /
             # calls arriving together), so that a single preemption suffices to interleave them
@@ -207,6 +218,13 @@ class Events(core.Scenario):
         if self.ws is not None and not self.ws.done:
             w.ws_send(self.ws, '4late-frame')
             w.run()
+        if ended and 'post_cancel' in p['causes']:
+            # the session's disconnect event has fired and its handler has returned: the session is finished, whatever became
+            # of the request that carried the CLOSE packet - a later request for it is refused, not served
+            served = [(r.method, r.status) for r in late if not r.done or r.status == 200]
+            if served:
+                self.flag('cleanup_skipped', 'after the disconnect event of the session, requests for it were still served: %r '
+                          '(not answered / 200 instead of 400)' % served, trigger='+'.join(p['causes']) + '/' + p['dh'])
         c = w.call('disconnect', A)
         w.run()
         c2 = w.call('send', A, 'x')
@@ -341,6 +359,8 @@ def param_list(ctx):
                     ps.append({'impl': impl, 'transport': tr, 'causes': ['api_disc_all'], 'dh': dh, 'poll': False})
                 for dh in DH:
                     ps.append({'impl': impl, 'transport': tr, 'causes': ['poll_cancel'], 'dh': dh})
+                for dh in ('yield', 'sleep'):
+                    ps.append({'impl': impl, 'transport': tr, 'causes': ['post_close', 'post_cancel'], 'dh': dh})
                 for cs in (['poll_cancel', 'api_disc'], ['post_close', 'poll_cancel'], ['poll_cancel', 'post_bad']):
                     ps.append({'impl': impl, 'transport': tr, 'causes': cs, 'dh': 'record'})
             ps.append({'impl': impl, 'transport': tr, 'causes': [causes[0]], 'dh': 'record', 'mh': 'raise'})
